@@ -25,14 +25,14 @@ type ev struct {
 }
 
 type trace struct {
-	evs     []ev
-	ids     *idtab
-	gas     func() int // embedded: gas counter after the call
-	wasm    bool
-	nextEnv int
-	codes   *codetab
+	evs      []ev
+	ids      *idtab
+	gas      func() int // embedded: gas counter after the call
+	wasm     bool
+	nextEnv  int
+	codes    *codetab
 	contract *common.Address
-	inPanic bool // a panic of the real env has been recorded and is still propagating
+	inPanic  bool // a panic of the real env has been recorded and is still propagating
 }
 
 // idtab maps addresses to small numbers (per case) for the model.
@@ -69,6 +69,9 @@ func newCodetab() *codetab {
 }
 
 func (c *codetab) id(h common.Hash) int {
+	if h == (common.Hash{}) {
+		return 0 // the zero hash: a contract record that only SetContractStake created (no code, nothing stored under it)
+	}
 	if i, ok := c.m[h]; ok {
 		return i
 	}
@@ -135,17 +138,35 @@ func (r *recEnv) rd(name string, f func()) {
 	r.t.add(name, "ok")
 }
 
-func (r *recEnv) BlockNumber() (v uint64)    { r.rd("rd blocknumber", func() { v = r.in.BlockNumber() }); return }
-func (r *recEnv) BlockTimeStamp() (v int64)  { r.rd("rd blocktime", func() { v = r.in.BlockTimeStamp() }); return }
-func (r *recEnv) MinFeePerGas() (v *big.Int) { r.rd("rd minfeepergas", func() { v = r.in.MinFeePerGas() }); return }
-func (r *recEnv) BlockSeed() (v []byte)      { r.rd("rd blockseed", func() { v = r.in.BlockSeed() }); return }
-func (r *recEnv) NetworkSize() (v int)       { r.rd("rd networksize", func() { v = r.in.NetworkSize() }); return }
-func (r *recEnv) Epoch() (v uint16)          { r.rd("rd epoch", func() { v = r.in.Epoch() }); return }
+func (r *recEnv) BlockNumber() (v uint64) {
+	r.rd("rd blocknumber", func() { v = r.in.BlockNumber() })
+	return
+}
+func (r *recEnv) BlockTimeStamp() (v int64) {
+	r.rd("rd blocktime", func() { v = r.in.BlockTimeStamp() })
+	return
+}
+func (r *recEnv) MinFeePerGas() (v *big.Int) {
+	r.rd("rd minfeepergas", func() { v = r.in.MinFeePerGas() })
+	return
+}
+func (r *recEnv) BlockSeed() (v []byte) {
+	r.rd("rd blockseed", func() { v = r.in.BlockSeed() })
+	return
+}
+func (r *recEnv) NetworkSize() (v int) {
+	r.rd("rd networksize", func() { v = r.in.NetworkSize() })
+	return
+}
+func (r *recEnv) Epoch() (v uint16) { r.rd("rd epoch", func() { v = r.in.Epoch() }); return }
 func (r *recEnv) State(a common.Address) (v state.IdentityState) {
 	r.rd("rd state", func() { v = r.in.State(a) })
 	return
 }
-func (r *recEnv) PubKey(a common.Address) (v []byte) { r.rd("rd pubkey", func() { v = r.in.PubKey(a) }); return }
+func (r *recEnv) PubKey(a common.Address) (v []byte) {
+	r.rd("rd pubkey", func() { v = r.in.PubKey(a) })
+	return
+}
 func (r *recEnv) Delegatee(a common.Address) (v *common.Address) {
 	r.rd("rd delegatee", func() { v = r.in.Delegatee(a) })
 	return
@@ -376,7 +397,10 @@ func (h *recHost) CodeHash(m *lib.GasMeter) (v []byte) {
 	h.rd("codehash", func() { v = h.in.CodeHash(m) })
 	return
 }
-func (h *recHost) Epoch(m *lib.GasMeter) (v uint16) { h.rd("epoch", func() { v = h.in.Epoch(m) }); return }
+func (h *recHost) Epoch(m *lib.GasMeter) (v uint16) {
+	h.rd("epoch", func() { v = h.in.Epoch(m) })
+	return
+}
 func (h *recHost) PayAmount(m *lib.GasMeter) (v *big.Int) {
 	h.rd("payamount", func() { v = h.in.PayAmount(m) })
 	return
@@ -467,7 +491,7 @@ func (h *recHost) ContractCodeHash(a lib.Address) *[]byte {
 	defer h.t.guard(op)
 	v := h.in.ContractCodeHash(a)
 	if v == nil {
-		h.t.add(op, "c0")
+		h.t.add(op, "cnil")
 	} else {
 		var hh common.Hash
 		hh.SetBytes(*v)
